@@ -20,6 +20,16 @@ BUILT = {
             "running circuit; each event is compared with a reference FSM interpreter: result, "
             "state, output, exact action/event order and the fsm_event_data every action reads",
             "refinement against an executable reference FSM interpreter"),
+    'C12': ('exploration',
+            "seeded search over OutputAsync mode x guard_time x stop_data x stop_timeout "
+            "(generous/tight) x arrival patterns of 1-6 puts on a virtual time grid (the first "
+            "6000 run indices walk mode x guard x stop_data x patterns of <=3 puts systematically) "
+            "x scripted coroutine durations, failures and slow cancellation x stop instant x "
+            "loop knobs; a post-mortem monitor over the recorded history checks exactly-once "
+            "results carrying the original data, mode discipline (FIFO/no overlap, cancel only "
+            "for a newer put, newest completes, immediate start), guard time, the output as "
+            "active-run count, stop_data last and the clean-up bound",
+            "history monitor (exactly-once, ordering, mode discipline) over simulated runs"),
     'C08': ('fault_enumeration',
             "fault site (block x phase) x termination cause x instant are walked systematically "
             "for the first 1500 run indices and sampled beyond, over generated circuits of "
